@@ -37,7 +37,8 @@ class InterpND:
             idx = 0
             tmp = np.zeros((self.n_dim, 2))
             for j, idx_i in enumerate(i):
-                idx = idx + idx_i * 2**j
+                # same corner order as intgral_step (first axis slowest)
+                idx = idx * 2 + idx_i
                 if idx_i == 0:
                     tmp[j] = [1, -1]
                 else:
